@@ -182,6 +182,18 @@ pub fn run(rep: &Report) -> serde_json::Value {
                 let (frames, err, hung) = read_all(mode, &f, script);
                 if hung || frames.len() != 1 || frames[0] != m || err.is_none() { rep.violation("large message not read back", json!({"size": sz, "chunk": chunk})); }
             }
+            // end of stream inside a large frame: after the prefix, mid-body, one byte short - with and without Pending
+            for missing in [1usize, 2, sz / 2 + 1, sz] {
+                if missing > sz { continue; }
+                let cut = f.len() - missing;
+                for script in [vec![Ans::Bytes(cut)], vec![Ans::Bytes(prefix), Ans::Pending, Ans::Bytes(4096), Ans::Pending, Ans::Bytes(cut)], vec![Ans::Bytes(prefix + 1); 3]] {
+                    rep.add("evaluations", 1);
+                    let (frames, err, hung) = read_all(mode, &f[..cut], script.clone());
+                    if hung || !frames.is_empty() || err.is_none() {
+                        rep.violation("end of stream inside a frame is not an error / yields a short message", json!({"mode": format!("{:?}", mode), "declared": sz, "missing_bytes": missing, "script": format!("{:?}", script), "returned_frames": frames.iter().map(|x| x.len()).collect::<Vec<_>>(), "error": format!("{:?}", err)}));
+                    }
+                }
+            }
         }
     }
     // declared length above the cap: refused before a buffer of that size is requested
@@ -218,6 +230,6 @@ pub fn run(rep: &Report) -> serde_json::Value {
         ],
         "evaluations": rep.get("evaluations"),
         "exhaustive": true,
-        "rule": format!("every sequence of <=3 messages of length 0..3 whose framed stream is <= {} bytes, in both modes, read back under EVERY composition of the stream into read sizes, with Pending inserted at every position (and every pair of positions for <=6 chunks), EOF at every offset; writer under short writes/Pending (<=2 deviations); single messages of 255/256/65535/65536/1MiB under 4 chunkings; declared lengths cap-1, cap, cap+1.. with allocation accounting; a state = one complete environment script, a transition = one environment answer", max_stream),
+        "rule": format!("every sequence of <=3 messages of length 0..3 whose framed stream is <= {} bytes, in both modes, read back under EVERY composition of the stream into read sizes, with Pending inserted at every position (and every pair of positions for <=6 chunks), EOF at every offset; writer under short writes/Pending (<=2 deviations); single messages of 255/256/65535/65536/1MiB under 4 chunkings and cut off 1, 2, half and all body bytes before the end; declared lengths cap-1, cap, cap+1.. with allocation accounting; a state = one complete environment script, a transition = one environment answer", max_stream),
     })
 }
